@@ -213,31 +213,33 @@ def rule_W8(ctx, typer):
 
 
 def rule_E3(ctx, typer):
-    """duplicate children are detected by id(), not by equality/hash of the node"""
+    """duplicate children are detected by id(), not by equality/hash of the node (wherever the validation lives:
+    the private checker or, after a refactoring, the children setter itself)"""
     from .nodetype import has_node, show
     n = 0
     for m in T.MIXINS:
-        func = ctx.p.func(m, "__check_children")
-        ft = typer.results.get(func) or typer.analyze(func)
-        cfg = typer.cfg_of(func)
+        cls = ctx.p.cls(m)
         found = False
-        for node in cfg.stmt_nodes(("raisestmt",)):
-            if "TreeError" not in norm(node.ast.exc):
-                continue
-            for cond, outcome, g in cfg.guards_of(node):
-                if isinstance(cond, ast.Compare) and len(cond.ops) == 1 and isinstance(cond.ops[0], (ast.In, ast.NotIn)):
-                    tl = ft.type_of(cond.left)
-                    n += 1
-                    if tl is not None and tl == frozenset(["id"]):
+        setter = ctx.p.func(m, "children", "setter")
+        for func in cls.funcs():
+            ft = typer.results.get(func) or typer.analyze(func)
+            cfg = typer.cfg_of(func)
+            for node in cfg.stmt_nodes(("raisestmt",)):
+                if "TreeError" not in norm(node.ast.exc):
+                    continue
+                for cond, outcome, g in cfg.guards_of(node):
+                    if isinstance(cond, ast.Compare) and len(cond.ops) == 1 and isinstance(cond.ops[0], (ast.In, ast.NotIn)):
+                        tl = ft.type_of(cond.left)
+                        n += 1
                         found = True
-                        ctx.inst("E3", func, cond, "duplicate test on id() values (%s)" % show(tl))
-                    else:
-                        ctx.viol("E3", func, cond, "duplicate-children test is a membership test on %s, not on id() values: "
-                                 "distinct nodes that compare equal are refused (or unhashable nodes fail)" % show(tl))
-                        found = True
+                        if tl is not None and tl == frozenset(["id"]):
+                            ctx.inst("E3", func, cond, "duplicate test on id() values (%s)" % show(tl))
+                        else:
+                            ctx.viol("E3", func, cond, "duplicate-children test is a membership test on %s, not on id() values: "
+                                     "distinct nodes that compare equal are refused (or unhashable nodes fail)" % show(tl))
         if not found:
-            ctx.viol("E3", func, func.node, "no duplicate-children refusal (TreeError guarded by an id() membership test) "
-                     "found: a child listed twice is no longer refused", construct="%s: duplicate refusal missing" % func.qual)
+            ctx.viol("E3", setter, setter.node, "no duplicate-children refusal (TreeError guarded by an id() membership test) "
+                     "found: a child listed twice is no longer refused", construct="%s: duplicate refusal missing" % m)
     return n
 
 
